@@ -148,3 +148,6 @@ pub type HashMap<K, V> = std::collections::HashMap<K, V>;
 fn vp_box_ref<T>(b: &Box<T>) -> (r: &T) ensures *r == **b { &**b }
 /// rule EB: the <=64-bit sub-arm is replaced by a call whose precondition is `false` (proves it unreachable)
 fn vp_unreachable<T>() -> (r: T) requires false { vstd::pervasive::unreached() }
+/// rule O12: `b.into()` with b: bool and target u64 (assumed contract of <u64 as From<bool>>::from)
+#[verifier::external_body]
+fn vp_bool_to_u64(b: bool) -> (r: u64) ensures r == (if b { 1u64 } else { 0u64 }) { b.into() }
